@@ -44,7 +44,7 @@ type Config struct {
 
 func defaultConfig() Config {
 	return Config{MaxSteps: 2000000, MaxDepth: 400, MaxAlloc: 1 << 20, MaxSymIndex: 300, ConcretizeMax: 64,
-		MaxPaths: 2000000, MaxWallS: 1500, Workers: 16, Solver: "z3", TimeoutMs: 10000, VerdictMs: 60000, Samples: 6, PanicIsViolation: true}
+		MaxPaths: 2000000, MaxWallS: 1500, IgnoreGo: true, Workers: 16, Solver: "z3", TimeoutMs: 10000, VerdictMs: 60000, Samples: 6, PanicIsViolation: true}
 }
 
 type workItem struct {
